@@ -17,9 +17,10 @@ for line in sys.stdin:
     why = None
     if "/p2extrep." in sig: why = REPEXT
     elif "/p2extfile." in sig: why = FILEEXT
-    elif re.search(r"/(nested>)*(dup-key|dup-key-within-entry|empty-entry|key-only|value-only|value-key|unknown-in-entry)$", sig): why = MAP
+    elif re.search(r"/(nested>)*(dup-key-within-entry)$", sig): why = MERGE + " (here: a message-typed map value occurring twice inside one map entry)"
+    elif re.search(r"/(nested>)*(dup-key|empty-entry|key-only|value-only|value-key|unknown-in-entry)$", sig): why = MAP
     elif re.search(r"/(nested>)*(twice|split-in-two|full-then-empty|empty-then-full)$", sig): why = MERGE
-    elif sig.endswith("/map-entry-shape"): why = MAP
+    elif sig.endswith("/map-entry-shape"): why = MERGE + " (here: a message-typed map value occurring twice inside one map entry)"
     elif sig.endswith("/message-merge"): why = MERGE
     elif sig.endswith("/unsupported-extension-shape"): why = REPEXT + " / " + FILEEXT
     if why is None:
